@@ -4,7 +4,7 @@
 // happens-before edges that blind the race detector, and because statement-level scheduling
 // points cannot see a read-modify-write inside one statement.
 //
-//	racepass child                    runs all scenarios (invoked by `run`, output = detector report)
+//	racepass child <i> <n>            runs the scenarios with index%n==i (invoked by `run`)
 //	racepass run <result.json>        runs the child, classifies its output, writes the result
 //	racepass degraded <tier> <reason> writes C16 evidence from the race pass alone
 package main
@@ -16,6 +16,7 @@ import (
 	"os"
 	"os/exec"
 	"regexp"
+	"strconv"
 	"strings"
 	"sync"
 
@@ -28,20 +29,23 @@ const (
 	iterations = 60
 )
 
-func child() {
+// child runs the scenarios with index%n == i.  Each scenario's concurrent phase is the first
+// thing that touches its operations in this process (the sequential reference is computed
+// afterwards), and `run` starts many children, so lazily built state is cold when goroutines
+// race for it.
+func child(i, n int) {
 	var ops int64
 	var mism []string
 	var mu sync.Mutex
 	scs := append(scen.Pairs(), scen.Triples()...)
-	for _, sc := range scs {
-		// sequential reference
-		_, bodies := sc.Setup()
-		want := make([]string, len(bodies))
-		for i, b := range bodies {
-			want[i] = b()
+	done := 0
+	for k, sc := range scs {
+		if k%n != i {
+			continue
 		}
+		done++
 		env, bodies := sc.Setup()
-		wantObs := env.Observe()
+		got := make([][]string, goroutines)
 		var wg sync.WaitGroup
 		start := make(chan struct{})
 		for g := 0; g < goroutines; g++ {
@@ -52,33 +56,48 @@ func child() {
 				<-start
 				for it := 0; it < iterations; it++ {
 					slot := (g + it) % len(bodies)
-					if got := bodies[slot](); got != want[slot] {
-						mu.Lock()
-						if len(mism) < 5 {
-							mism = append(mism, fmt.Sprintf("%s: thread body %d returned %q, sequentially %q", sc.Name, slot, got, want[slot]))
-						}
-						mu.Unlock()
-					}
+					got[g] = append(got[g], bodies[slot]())
 				}
 			}()
 		}
 		close(start)
 		wg.Wait()
 		ops += int64(goroutines * iterations)
-		if obs := env.Observe(); obs != wantObs {
+		obs := env.Observe()
+		// sequential reference, computed after the concurrent phase on fresh objects
+		env2, bodies2 := sc.Setup()
+		want := make([]string, len(bodies2))
+		for j, b := range bodies2 {
+			want[j] = b()
+		}
+		for g := 0; g < goroutines; g++ {
+			for it, res := range got[g] {
+				slot := (g + it) % len(bodies)
+				if res != want[slot] {
+					mu.Lock()
+					if len(mism) < 5 {
+						mism = append(mism, fmt.Sprintf("%s: thread body %d returned %q, sequentially %q", sc.Name, slot, res, want[slot]))
+					}
+					mu.Unlock()
+				}
+			}
+		}
+		if obs != env2.Observe() {
 			mism = append(mism, sc.Name+": shared objects changed")
 		}
 	}
-	b, _ := json.Marshal(scen.RaceResult{Scenarios: len(scs), Goroutines: goroutines, Iterations: iterations, Operations: ops, Mismatches: mism, RaceEnabled: raceEnabled})
+	b, _ := json.Marshal(scen.RaceResult{Scenarios: done, Goroutines: goroutines, Iterations: iterations, Operations: ops, Mismatches: mism, RaceEnabled: raceEnabled})
 	fmt.Println("RACEPASS-RESULT " + string(b))
 }
 
 var raceRe = regexp.MustCompile(`WARNING: DATA RACE`)
 
-func run() scen.RaceResult {
+const children = 48
+
+func runChild(i int) scen.RaceResult {
 	exe, _ := os.Executable()
-	cmd := exec.Command(exe, "child")
-	cmd.Env = append(os.Environ(), "GORACE=halt_on_error=0 history_size=3")
+	cmd := exec.Command(exe, "child", fmt.Sprint(i), fmt.Sprint(children))
+	cmd.Env = append(os.Environ(), "GORACE=halt_on_error=0 history_size=3", "GOMAXPROCS=4")
 	var out bytes.Buffer
 	cmd.Stdout, cmd.Stderr = &out, &out
 	err := cmd.Run()
@@ -91,12 +110,12 @@ func run() scen.RaceResult {
 	}
 	res.Races = len(raceRe.FindAllString(text, -1))
 	if res.Races > 0 {
-		i := strings.Index(text, "WARNING: DATA RACE")
-		end := i + 3000
+		k := strings.Index(text, "WARNING: DATA RACE")
+		end := k + 3000
 		if end > len(text) {
 			end = len(text)
 		}
-		res.FirstReport = text[i:end]
+		res.FirstReport = text[k:end]
 	}
 	if err != nil && res.Races == 0 && res.Scenarios == 0 {
 		tail := text
@@ -108,13 +127,48 @@ func run() scen.RaceResult {
 	return res
 }
 
+// run starts the children (16 at a time) and merges their results.
+func run() scen.RaceResult {
+	results := make([]scen.RaceResult, children)
+	var wg sync.WaitGroup
+	sem := make(chan struct{}, 16)
+	for i := 0; i < children; i++ {
+		i := i
+		wg.Add(1)
+		go func() {
+			defer wg.Done()
+			sem <- struct{}{}
+			results[i] = runChild(i)
+			<-sem
+		}()
+	}
+	wg.Wait()
+	total := scen.RaceResult{Goroutines: goroutines, Iterations: iterations, RaceEnabled: true}
+	for _, r := range results {
+		total.Scenarios += r.Scenarios
+		total.Operations += r.Operations
+		total.Races += r.Races
+		total.Mismatches = append(total.Mismatches, r.Mismatches...)
+		total.RaceEnabled = total.RaceEnabled && (r.RaceEnabled || r.Crash != "")
+		if total.FirstReport == "" {
+			total.FirstReport = r.FirstReport
+		}
+		if total.Crash == "" {
+			total.Crash = r.Crash
+		}
+	}
+	return total
+}
+
 func main() {
 	if len(os.Args) < 2 {
 		os.Exit(2)
 	}
 	switch os.Args[1] {
 	case "child":
-		child()
+		i, _ := strconv.Atoi(os.Args[2])
+		n, _ := strconv.Atoi(os.Args[3])
+		child(i, n)
 	case "run":
 		res := run()
 		b, _ := json.MarshalIndent(res, "", " ")
